@@ -213,9 +213,12 @@ def _gen_ops(rng, cfg, depth, budget):
             body = _gen_ops(rng, cfg, depth + 1, budget)
             if rng.random() < cfg["p_raise"]:
                 body.append({"op": "raise", "exc": rng.choice(EXC_KINDS), "levels": rng.randint(1, depth + 1)})
-            ops.append(
-                {"op": "with", "mgr": mgr, "b": _pick_backend(rng, cfg, mgr), "local": rng.random() < cfg["p_local"], "body": body}
-            )
+            w = {"op": "with", "mgr": mgr, "b": _pick_backend(rng, cfg, mgr), "local": rng.random() < cfg["p_local"], "body": body}
+            if rng.random() < 0.2:
+                # the context object is created ahead of time (before the sibling operations that precede it run)
+                # and entered later: "previous backend" must be the one at entry, not the one at creation
+                w["early"] = True
+            ops.append(w)
     return ops
 
 
@@ -369,6 +372,10 @@ class Run:
         return b in (BE_BAD if mgr == "be" else TA_BAD)
 
     def run_ops(self, t, ops, depth):
+        prebuilt = {}
+        for op in ops:
+            if op["op"] == "with" and op.get("early") and op["b"] != "@cur" and not self.is_bad(op["mgr"], op["b"]):
+                prebuilt[id(op)] = self.mgr_mod(op["mgr"]).backend_context(self.backend_arg(op["mgr"], op["b"]), local_threadsafe=op["local"])
         for op in ops:
             k = op["op"]
             if k == "get":
@@ -414,7 +421,7 @@ class Run:
             elif k == "set":
                 self.do_set(t, op)
             elif k == "with":
-                self.do_with(t, op, depth)
+                self.do_with(t, op, depth, prebuilt.get(id(op)))
             elif k == "raise":
                 e = make_exc(op["exc"])
                 e.sim_levels = op["levels"]
@@ -505,7 +512,7 @@ class Run:
                 self.violate(f"{mgr}.unknown-accepted", f"set_backend({b!r}) did not raise")
             self.ret(h, "ok")
 
-    def do_with(self, t, op, depth):
+    def do_with(self, t, op, depth, prebuilt=None):
         mgr, b = op["mgr"], op["b"]
         mod = self.mgr_mod(mgr)
         arg = None
@@ -516,7 +523,7 @@ class Run:
         unwind = None
         h_exit = None
         try:
-            with mod.backend_context(arg if arg is not None else self.backend_arg(mgr, b), local_threadsafe=op["local"]):
+            with (prebuilt if prebuilt is not None else mod.backend_context(arg if arg is not None else self.backend_arg(mgr, b), local_threadsafe=op["local"])):
                 entered = True
                 if self.is_bad(mgr, b):
                     self.violate(f"{mgr}.unknown-accepted", f"backend_context({b!r}) entered")
